@@ -19,12 +19,23 @@ func profPairing() *Profile {
 	return &Profile{Name: "pairing", W: w, Providers: 9, Consumers: 4, Delegators: 1, Validators: 2, KeepPools: true, PolicyHeavy: true, EpochsToSave: 3, EpochBlocks: 4}
 }
 
+// profPairingFor alternates the small world with a wide one (24 providers: enough providers that offer only one of
+// the optional services for the mix-filter slots to matter).
+func profPairingFor(h int) *Profile {
+	p := profPairing()
+	if h%2 == 1 {
+		p.Name = "pairingwide"
+		p.Providers = 24
+	}
+	return p
+}
+
 func TestC02(t *testing.T) {
 	run := ev.Start("C02")
 	nHist, nOps := run.Pick(8, 100), run.Pick(400, 1200)
 	for h := 0; h < nHist; h++ {
 		var pm *PairingMon
-		s := History(t, run, profPairing(), h, nOps, func(id string) []Monitor {
+		s := History(t, run, profPairingFor(h), h, nOps, func(id string) []Monitor {
 			pm = &PairingMon{Run: run, Hist: id, Prop: "C02", Every: 3}
 			return []Monitor{pm}
 		})
@@ -68,7 +79,7 @@ func TestC01(t *testing.T) {
 		for rep := 0; rep < replays; rep++ {
 			var dm *DigestMon
 			var pm *PairingMon
-			s := History(t, run, profPairing(), h, nOps, func(id string) []Monitor {
+			s := History(t, run, profPairingFor(h), h, nOps, func(id string) []Monitor {
 				dm = &DigestMon{}
 				mons := []Monitor{dm}
 				if rep == 0 {
